@@ -119,7 +119,29 @@ def reverse_jobs(rnd, n, schedulers=('default', 'legacy'), **job_kw):
     return jobs
 
 
-def run_property(pid, tier, jobs, nontrivial_rule, nontrivial_fn, model_runs=None, extra=None):
+def catalogue_model_runs(d, tier, liveness_for=('diamond_j-1_ok', 'nested_join_inner_uncreated_err', 'diamond_j1_ok')):
+    """Exhaustive TLC runs of MistralEngine on every catalogue shape (all delivery orders of messages,
+    post-commit operations and job sub-steps), liveness (Terminates under weak fairness) on a few."""
+    import concurrent.futures as cf
+    from harness import engmodel
+    shapes = gen.catalogue()
+    out = []
+
+    def one(item):
+        nm, P = item
+        r = engmodel.model_check(d, nm, P.abstract(), liveness=False)
+        res = [('MistralEngine/%s' % nm, r)]
+        if nm in liveness_for:
+            res.append(('MistralEngine/%s/liveness' % nm, engmodel.model_check(d, nm + '_live', P.abstract(), liveness=True)))
+        return res
+
+    with cf.ThreadPoolExecutor(max_workers=6) as ex:
+        for res in ex.map(one, shapes):
+            out += res
+    return out
+
+
+def run_property(pid, tier, jobs, nontrivial_rule, nontrivial_fn, model_runs=None, extra=None, strict=False):
     t0 = time.time()
     verdict = common.Verdict(pid)
     d = common.builddir(pid.lower(), clean=True)
@@ -149,6 +171,25 @@ def run_property(pid, tier, jobs, nontrivial_rule, nontrivial_fn, model_runs=Non
     states += st
     trans += tr
     mine, other = engcheck.report(pid, verdict, traces, viols, extra_sig=known_sig)
+    strict_info = {}
+    if strict:
+        from harness import engmodel
+        scope = [t for t in traces if engmodel.in_scope(t)]
+        if scope:
+            acc, reached, st2, tr2 = engmodel.strict_validate(d, scope)
+            states += st2
+            trans += tr2
+            ndiv = 0
+            for i, t in enumerate(scope):
+                if i not in acc:
+                    ndiv += 1
+                    if ndiv <= 5:
+                        k = reached.get(i, 0)
+                        nxt = t['steps'][k]['ev'] if k < len(t['steps']) else {}
+                        verdict.divergence('run [%s policy=%s seed=%s] is not a behaviour of MistralEngine: matched %d of %d steps, next event %s:%s%s'
+                                           % (t['meta'].get('label'), t['meta']['policy'], t['meta']['seed'], k, len(t['steps']),
+                                              nxt.get('kind'), nxt.get('what'), ('/' + nxt.get('phase')) if nxt.get('phase') else ''))
+            strict_info = {'traces_in_model_scope': len(scope), 'traces_accepted_strict': len(acc), 'divergences': ndiv}
     nontrivial = set()
     for t in traces:
         k = nontrivial_fn(t)
@@ -176,6 +217,7 @@ def run_property(pid, tier, jobs, nontrivial_rule, nontrivial_fn, model_runs=Non
         'samples': samples or [{'yaml': traces[0]['meta']['yaml']}],
         'known_findings_hit': verdict.known_hits,
     }
+    cov.update(strict_info)
     if extra:
         cov.update(extra)
     common.write_evidence(pid, tier, 'model_checking', cov, time.time() - t0, len(verdict.violations), LEVEL_ASSUME)
